@@ -321,7 +321,33 @@ def run_property(prop_id, tier, seed, replay=None):
         if not fixed:
             log("replay file names no concrete case (%s); running the normal check" % det.get("broken"))
             fixed = None
+    pysem_funcs = getattr(P, "pysem_funcs", None)
+    pysem_fixed = None
+    if fixed is not None and pysem_funcs:
+        pysem_fixed = [c for c in fixed if str(c.get("kind", "")).startswith("Sem:")]
+        fixed = [c for c in fixed if not str(c.get("kind", "")).startswith("Sem:")]
+        if pysem_fixed and not fixed:
+            fixed = []
     corr = P.correspondence(rng, tier, coq_eval, model_available=P.model_available(ok_exec, exec_out), fixed_cases=fixed)
+    if pysem_funcs and not corr.get("error"):
+        # second stream: the interpreter on the regenerated source terms vs CPython on the real functions
+        from props.pysem import PySemProp
+        with Lock():
+            ok_ps, ps_out, ps_dt = make(["theories/Exec/PySem.vo"])
+        Q = PySemProp(prop_id, pysem_funcs)
+        corr2 = Q.correspondence(rng, tier, coq_eval, model_available=ok_ps, fixed_cases=pysem_fixed)
+        if not ok_ps:
+            notes.append("Exec/PySem did not build: " + ps_out[-800:])
+        corr["evaluations"] = corr.get("evaluations", 0) + corr2.get("evaluations", 0)
+        corr["distinct_nontrivial"] = corr.get("distinct_nontrivial", 0) + corr2.get("distinct_nontrivial", 0)
+        corr.setdefault("histogram", {}).update(corr2.get("histogram", {}))
+        corr["samples"] = corr.get("samples", []) + corr2.get("samples", [])[:3]
+        corr["rule"] = corr.get("rule", "") + " || " + Q.rule
+        for m_ in corr2.get("mismatches", []):
+            m_["meaning"] = "MiniPy interpreter on the regenerated source term and CPython on the real function disagree (translator/semantics tie broken)"
+            corr.setdefault("mismatches", []).append(m_)
+        if corr2.get("error"):
+            corr["error"] = "PySem: " + corr2["error"]
     # corr: dict(evaluations, distinct_nontrivial, rule, samples, histogram, mismatches=[...], prop_failures=[...])
 
     known = [k for k in load_known() if k.get("property") == prop_id and k.get("status") == "known"]
